@@ -21,6 +21,11 @@ class InfraError(Exception):
     pass
 
 
+class TieBroken(InfraError):
+    """the harness/hooks do not compile against a tree that itself compiles: broken correspondence"""
+    pass
+
+
 def sh(cmd, cwd=None, env=None, timeout=None, input=None, check=False):
     p = subprocess.run(cmd, cwd=cwd, env=env, timeout=timeout, input=input,
                        stdout=subprocess.PIPE, stderr=subprocess.STDOUT, text=True,
@@ -145,7 +150,14 @@ class Ctx:
         if rc != 0:
             if os.path.exists(tmpout):
                 os.remove(tmpout)
-            raise InfraError("go build of harness %s failed:\n%s" % (name, o[-6000:]))
+            # Does the tree itself still build?  Then it is OUR hooks/harness that no longer fit the source (a field
+            # changed type, a function the shim exports was renamed ...): the tie between model and code cannot be
+            # established for this tree.  That is a broken correspondence, not an infrastructure problem.
+            rc2, o2 = sh(["go", "build", "./..."], cwd=REPO, env=GOENV, timeout=1800)
+            if rc2 == 0:
+                raise TieBroken("the verification harness %s (overlay hooks, -tags verif) no longer compiles against the current source, "
+                                "while the source itself builds:\n%s" % (name, o[-3000:]))
+            raise InfraError("go build of harness %s failed (and `go build ./...` of the tree fails too):\n%s" % (name, o[-6000:]))
         if REPO != "/repo":
             # a check run against another tree (seeded change) keeps its own binary
             out = "%s.%s" % (out, hashlib.sha1(REPO.encode()).hexdigest()[:8])
